@@ -16,6 +16,9 @@
 //@h sip_3[0-9]$ : unwind=41
 //@h sip_40$ : unwind=42
 //@h sip_2[56][0-9]$ : unwind=266 timeout_thorough=3000
+//@h sipname_1[0-9]$ : unwind=21
+//@h sipname_2[0-9]$ : unwind=31
+//@h sipname_3[0-9]$ : unwind=41
 //@h names : solver=minisat unwind=70
 #include "vrt.h"
 #include <nop/rpc/interface.h>
